@@ -125,6 +125,15 @@ def classify(ck: Check, hists, which: str):
                 f'{h["ubad"][0]}: {h["ubad"][1]} (numeric oracle on the real '
                 'circuit)', {'history_seed': h['seed'], 'calls': h['calls'],
                              'lines': h['lines']})
+        if h['impl'] and h['impl'][0].startswith('PROBE-FAILED'):
+            if which == 'C05':
+                ck.violation(
+                    'internal-error:probe:' + h['internal'][1].split('(')[0],
+                    'reading the circuit through the public API failed on a '
+                    'state the API itself reported as occupied: '
+                    + h['internal'][1][:300],
+                    {'history_seed': h['seed'], 'error': h['internal']})
+            continue
         for j, (line, impl, model) in enumerate(
                 zip(h['lines'], h['impl'], h['model'])):
             if line.startswith('defblock'):
